@@ -93,6 +93,51 @@ for _locus, _form, _sp in POOL:
     CLASS_OF.setdefault(_form, len(CLASS_OF) + 1)
 FRESH0 = 1000        # classes of facets that duplicate nothing
 
+# TRCL translations used by the tie stream; (5 0 0) and (0 4 0) move one pool
+# surface onto another one, (0 0 0) makes a copy equal to its original
+SHIFTS = ['0 0 0', '5 0 0', '0 4 0', '1 2 3']
+
+
+def moved_form(form, shift):
+    '''Canonical TRIPOLI-4 form of a pool surface translated by `shift`
+    (written from the geometry, not from the code).'''
+    typ, prm = form
+    dx, dy, dz = shift
+    if typ == 'PLANEX':
+        return (typ, (prm[0] + dx,))
+    if typ == 'PLANEY':
+        return (typ, (prm[0] + dy,))
+    if typ == 'PLANEZ':
+        return (typ, (prm[0] + dz,))
+    if typ == 'PLANE':          # a x + b y + c z + d = 0
+        a, b, c, d = prm
+        return (typ, (a, b, c, d - (a * dx + b * dy + c * dz)))
+    if typ in ('SPHERE', 'CONEZ'):
+        return (typ, (prm[0] + dx, prm[1] + dy, prm[2] + dz, prm[3]))
+    if typ == 'CYLZ':
+        return (typ, (prm[0] + dx, prm[1] + dy, prm[2]))
+    if typ == 'CYLX':
+        return (typ, (prm[0] + dy, prm[1] + dz, prm[2]))
+    raise ValueError(typ)
+
+
+for _locus, _form, _sp in list(POOL):
+    for _sh in SHIFTS:
+        CLASS_OF.setdefault(
+            moved_form(_form, tuple(float(x) for x in _sh.split())),
+            len(CLASS_OF) + 1)
+assert len(CLASS_OF) < FRESH0
+FORM_OF_CLASS = {v: k for k, v in CLASS_OF.items()}
+
+
+def moved_cls(cls, trcl):
+    '''Descriptor class of the copy of a single-part pool surface of class
+    `cls` made for a cell with TRCL=(trcl).'''
+    form = FORM_OF_CLASS.get(cls)
+    if form is None:
+        return 0
+    return CLASS_OF[moved_form(form, tuple(float(x) for x in trcl.split()))]
+
 # cards with several sub-surfaces: spelling, MCNP parts, first class, aux
 # classes (fresh unless they are a pool form)
 MULTI = [
@@ -225,6 +270,10 @@ def gen_deck(rng, malformed=False):
             c['lits'] = [41, -42] + [x for x in c['lits']
                                     if abs(x) in usable][:1]
     cells.append({'id': n_cells + 1, 'lits': [usable[0]], 'imp': 0})
+    if rng.random() < 0.35:         # TRCL on some cells (also on the skipped one)
+        for c in cells:
+            if rng.random() < 0.5:
+                c['trcl'] = rng.choice(SHIFTS)
     return {'surfs': surfs, 'cells': cells, 'fault': fault}
 
 
@@ -284,8 +333,22 @@ def coq_cards(deck):
 
 
 def coq_cells(deck):
-    return clist(cpair(cn(c['id']), clist(cz(x) for x in c['lits']))
-                 for c in deck['cells'] if c['imp'] != 0)
+    '''Every cell card as a Model.tcell: converted or skipped (importance
+    0), with TRCL or not; each literal of a TRCL cell carries the descriptor
+    class of the translated copy of the surface it names.'''
+    last = effective_surfs(deck)
+    out = []
+    for c in deck['cells']:
+        lits = []
+        for x in c['lits']:
+            cls = 0
+            s = last.get(abs(x))
+            if c.get('trcl') and s is not None and s['single']:
+                cls = moved_cls(s['cls'], c['trcl'])
+            lits.append(f'(mkL {cz(x)} {cn(cls)} [])')
+        out.append(f'(mkC {cn(c["id"])} {cbool(c["imp"] != 0)} '
+                   f'{cbool(bool(c.get("trcl")))} {clist(lits)})')
+    return clist(out)
 
 
 # ---- independent oracle ----------------------------------------------------
@@ -464,15 +527,39 @@ def written_possible(deck, dedup):
     return False
 
 
+def trcl_copies(deck):
+    '''{id of the copy: (cell, number of the copied surface)} for the copies
+    made for the literals of cells with TRCL (fresh ids from the largest
+    surface number + 2, cells in card order, literals in order).'''
+    last = effective_surfs(deck)
+    key = max(last) + 1
+    out = {}
+    for c in deck['cells']:
+        if not c.get('trcl'):
+            continue
+        for x in c.get('lits') or c.get('order') or []:
+            key += 1
+            out[key] = (c, abs(x))
+    return out
+
+
 def absent_class(deck, dedup, sid, last, users, written_cells):
     '''Narrow known-finding classes for an entry whose surface is not written.'''
     s = last.get(sid)
-    if s is None and dedup and sid > max(last) and any(
-            c.get('trcl') and c['imp'] != 0
-            and any(last[k]['flag'] for k in cell_refs(deck, c) if k in last)
-            for c in deck['cells']):
-        return 'bc_on_deduplicated_trcl_copy'
-    if s is None or not s['flag'] or s['mcnp'] > 1:
+    if s is None:
+        copy = trcl_copies(deck).get(sid)
+        if copy is None:
+            return None
+        cell, orig = copy
+        o = last.get(orig)
+        if o is None or not o['flag'] or o['mcnp'] > 1:
+            return None
+        if cell['imp'] == 0 or cell['id'] not in written_cells:
+            return 'bc_on_unused_trcl_copy'
+        if dedup:
+            return 'bc_on_deduplicated_trcl_copy'
+        return None
+    if not s['flag'] or s['mcnp'] > 1:
         return None
     if dedup and any(o['id'] < sid and o['cls'] == s['cls']
                      and o.get('tr') == s.get('tr') for o in last.values()):
@@ -505,6 +592,10 @@ def witness(kind):
     elif kind == 'trcl':
         surfs = base + [px0(2, '*')]
         cells = [{'id': 1, 'lits': [-1, 2, -4], 'imp': 1, 'trcl': '1 0 0'}]
+    elif kind == 'trclskipped':
+        surfs = base + [px0(2, '*')]
+        cells = [{'id': 1, 'lits': [-1, 2, -4], 'imp': 1},
+                 {'id': 3, 'lits': [-2], 'imp': 0, 'trcl': '1 0 0'}]
     else:
         surfs = base + [px0(2, '*')]
         cells = [{'id': 1, 'lits': [-1, 2, -4], 'imp': 1, 'trcl': '0 0 0'},
@@ -516,7 +607,8 @@ def witness(kind):
 WITNESSES = [('bc_on_deduplicated_surface', 'dedup'),
              ('bc_on_unused_surface', 'unused'),
              ('bc_on_trcl_original_surface', 'trcl'),
-             ('bc_on_deduplicated_trcl_copy', 'trclcopy')]
+             ('bc_on_deduplicated_trcl_copy', 'trclcopy'),
+             ('bc_on_unused_trcl_copy', 'trclskipped')]
 
 
 # ---- richer decks for the sweep (outside the model) ------------------------
@@ -585,6 +677,7 @@ def gen_rich(rng):
             cell['compl'] = [c]
         if feature == 'trcl' and rng.random() < 0.7:
             cell['trcl'] = rng.choice(['1 0 0', '0 2 0', '0 0 0'])
+            cell['order'] = lits
         cells.append(cell)
     cells.append({'id': n_cells + 1, 'imp': 0, 'expr': str(sids[0]),
                   'refs': [sids[0]]})
@@ -812,8 +905,8 @@ def run(res, tier, seed, proofs_ok):
     res.extra['guard'] = {'flagged decks where every entry designates a '
                           'written surface': inside,
                           'decks outside the guard (known classes)': outside}
-    bad, errs = common.run_case_files('c16_run', HEADER, 'run_case',
-                                      'check_run', cases)
+    bad, errs = common.run_case_files('c16_run', HEADER, 'run_t_case',
+                                      'check_run_t', cases)
     res.obligation(f'tie:run ({len(cases)} conversions: Model.run = SURF ids/'
                    'classes + BOUNDARY_CONDITION block or exception class)',
                    not bad and not errs,
@@ -822,7 +915,7 @@ def run(res, tier, seed, proofs_ok):
         deck, args, conv, term = meta[idx]
         model, _ = common.coq_eval(
             HEADER + 'Import ListNotations.\n',
-            f'run (mkCfg {cbool("--skip-deduplication" in args)} '
+            f'run_t (mkCfg {cbool("--skip-deduplication" in args)} '
             f'{cbool("--skip-boundary-conditions" in args)}) '
             f'{coq_cards(deck)} {coq_cells(deck)}')
         res.violation('correspondence',
@@ -874,7 +967,7 @@ def replay(path):
             if all('lits' in c for c in deck['cells']):
                 model, _ = common.coq_eval(
                     HEADER + 'Import ListNotations.\n',
-                    f'run (mkCfg {cbool("--skip-deduplication" in args)} '
+                    f'run_t (mkCfg {cbool("--skip-deduplication" in args)} '
                     f'{cbool("--skip-boundary-conditions" in args)}) '
                     f'{coq_cards(deck)} {coq_cells(deck)}')
                 print('implementation:', term)
